@@ -9,6 +9,7 @@ import (
 	"net"
 	"net/netip"
 	"runtime"
+	"sort"
 	"time"
 
 	"github.com/jech/storrent/alloc"
@@ -784,4 +785,64 @@ func runFinalise(sc *Scenario, out *Out) {
 		viol("lost-wakeup", fmt.Sprintf("a consumer is still waiting 8 s after good data for piece %d was delivered and its last block reported %d times", p, dups))
 	}
 	settle()
+}
+
+// runRefused: the "deleted before the call" stop point of Lifecycle.tla realised another way - a torrent that
+// AddTorrent refused because its hash is already listed never runs; every operation on it returns at once with a
+// result or "torrent is dead", and the listed torrent is not disturbed.
+func runRefused(sc *Scenario, out *Out) {
+	w, err := newWorld(sc.ID, 4, out)
+	if err != nil {
+		out.Note = err.Error()
+		return
+	}
+	defer func() {
+		k, c := context.WithTimeout(context.Background(), 5*time.Second)
+		w.t.Kill(k)
+		c()
+		w.cancel()
+	}()
+	dup, err := mktor.New(mktor.Spec{Name: fmt.Sprintf("live-%d", sc.ID), PieceLen: int64(w.psize), Length: w.length, Seed: w.seed}, "")
+	if err != nil {
+		out.Note = err.Error()
+		return
+	}
+	if !dup.Hash.Equal(w.t.Hash) {
+		out.Note = "the duplicate has another hash"
+		return
+	}
+	got, err := tor.AddTorrent(w.ctx, dup)
+	if err == nil || got != nil {
+		out.Violations = append(out.Violations, Viol{"C17", "duplicate-accepted", fmt.Sprintf("AddTorrent accepted a second torrent with a listed hash (%v)", err), 0})
+		return
+	}
+	names := make([]string, 0, len(ops))
+	for n := range ops {
+		if n != "Announce" && n != "Backlog" && n != "PeerFaults" {
+			names = append(names, n)
+		}
+	}
+	sort.Strings(names)
+	wd := &world{t: dup, out: out, ctx: w.ctx}
+	for _, n := range names {
+		res := make(chan opResult, 1)
+		go func(n string) { res <- ops[n](wd) }(n)
+		select {
+		case r := <-res:
+			if r.err != nil && !errors.Is(r.err, tor.ErrTorrentDead) && r.err.Error() != "file does not exist" {
+				out.Violations = append(out.Violations, Viol{"C17", "call-error:" + n, fmt.Sprintf("%s on a torrent that AddTorrent refused (duplicate hash) returned %v", n, r.err), 0})
+			}
+		case <-time.After(6 * time.Second):
+			out.Violations = append(out.Violations, Viol{"C17", "call-hang:" + n, fmt.Sprintf("%s on a torrent that AddTorrent refused (duplicate hash) did not return within 6 s", n), 0})
+			return
+		}
+	}
+	// the listed torrent still answers
+	if _, err := w.t.GetStats(); err != nil {
+		out.Violations = append(out.Violations, Viol{"C17", "listed-torrent-disturbed", fmt.Sprintf("the listed torrent answers %v after the duplicate was refused", err), 0})
+	}
+	if tor.Get(w.t.Hash) != w.t {
+		out.Violations = append(out.Violations, Viol{"C17", "listed-torrent-disturbed", "the listed torrent is no longer the one listed under its hash", 0})
+	}
+	out.Applied = len(names)
 }
